@@ -456,6 +456,7 @@ type World struct {
 	eth1Vote       *common.Eth1Data
 	eth1VotePeriod uint64
 	forgeSlashed   bool // produce builds the block of a slashed proposer (never registered)
+	forgeSameSlot  bool // produce builds a second block for the parent's own slot, on the parent's post-state (never registered)
 
 	res *core.Result
 }
@@ -484,7 +485,11 @@ func NewWorld(cfg *Config, res *core.Result) (*World, error) {
 		wc[0] = common.BLS_WITHDRAWAL_PREFIX
 		hh := sha256.Sum256(w.keys.pub[i][:])
 		copy(wc[1:], hh[1:])
-		if balRng.Chance(1, 4) {
+		if i%11 == 7 {
+			// a prefix that is neither the BLS nor the execution one (legal bytes; no withdrawals, no change possible)
+			wc[0] = 0x02
+			w.changedV[i] = true
+		} else if balRng.Chance(1, 4) {
 			wc = common.Root{}
 			wc[0] = common.ETH1_ADDRESS_WITHDRAWAL_PREFIX
 			wc[31] = byte(i)
@@ -1211,6 +1216,15 @@ func (w *World) produce(parent *blockRec, slot uint64) (*blockRec, error) {
 	blockHash := fnvRoot("payload", w.payloadN<<20|slot)
 
 	hdr := common.BeaconBlockHeader{Slot: common.Slot(slot), ProposerIndex: proposer, ParentRoot: parent.root}
+	if w.forgeSameSlot {
+		// no slot was processed since the parent: the state's latest header still has its zero state root,
+		// and that is the header a block on this very state has to name as its parent
+		lh, err := st.LatestBlockHeader()
+		if err != nil {
+			return nil, err
+		}
+		hdr.ParentRoot = lh.HashTreeRoot(tree.GetHashFn())
+	}
 	var body common.SpecObj
 	switch fidx {
 	case 0:
@@ -1295,7 +1309,7 @@ func (w *World) produce(parent *blockRec, slot uint64) (*blockRec, error) {
 	if err != nil {
 		return nil, err
 	}
-	if slashedProposer {
+	if slashedProposer || w.forgeSameSlot {
 		// a block the slashed proposer signs all the same (see forgeBySlashedProposer): well formed in
 		// every other respect; it declares the root of whatever zrnt makes of it, if anything
 		if err := common.PostSlotTransition(ctx, w.spec, post.epc, post.st, env, false); err == nil {
@@ -1378,6 +1392,31 @@ func (w *World) forgeBySlashedProposer(parent *blockRec, slot uint64) (*blockRec
 	w.forgeSlashed = true
 	blk, err := w.produce(parent, slot)
 	w.forgeSlashed = false
+	w.exited, w.slashedV, w.changedV, w.heldUntil, w.atts = exited, slashedV, changedV, held, atts
+	w.payloadN, w.eth1Vote, w.eth1VotePeriod = payloadN, vote, votePeriod
+	return blk, err
+}
+
+// forgeSecondBlockOfSlot: a second, otherwise well-formed block for the slot of `first`, built on the
+// post-state of `first` itself (no slot processed in between) by the slot's proposer.
+func (w *World) forgeSecondBlockOfSlot(first *blockRec) (*blockRec, error) {
+	cp := func(m map[int]bool) map[int]bool {
+		o := make(map[int]bool, len(m))
+		for k, v := range m {
+			o[k] = v
+		}
+		return o
+	}
+	exited, slashedV, changedV := cp(w.exited), cp(w.slashedV), cp(w.changedV)
+	held := make(map[*phase0.Attestation]uint64, len(w.heldUntil))
+	for k, v := range w.heldUntil {
+		held[k] = v
+	}
+	atts := append([]*phase0.Attestation(nil), w.atts...)
+	payloadN, vote, votePeriod := w.payloadN, w.eth1Vote, w.eth1VotePeriod
+	w.forgeSameSlot = true
+	blk, err := w.produce(first, first.slot)
+	w.forgeSameSlot = false
 	w.exited, w.slashedV, w.changedV, w.heldUntil, w.atts = exited, slashedV, changedV, held, atts
 	w.payloadN, w.eth1Vote, w.eth1VotePeriod = payloadN, vote, votePeriod
 	return blk, err
